@@ -23,10 +23,44 @@ pub fn run(env: &mut Env) -> Outcome {
     let base_hist = s.world.server.borrow().history.len();
     let n = { let mut ctx = ctxrc.borrow_mut(); if ctx.chance("long_sequence", 1, 24) { 250 + ctx.choose("n_submissions_long", 80) as usize } else { 1 + ctx.choose("n_submissions", 60) as usize } };
     let mut accepted: Vec<Sub> = Vec::new();
+    let mut reactivation_marks: Vec<usize> = Vec::new();
     for k in 0..n {
         // interleaved server traffic
-        let traffic = ctxrc.borrow_mut().choose("traffic", 5);
-        if traffic != 0 {
+        let traffic = ctxrc.borrow_mut().choose("traffic", 6);
+        if traffic == 5 {
+            // the server re-activates the session (possibly with another desktop size): pure server traffic as far as
+            // the submitted input is concerned
+            if !ctxrc.borrow_mut().chance("reactivation_now", 1, 4) {
+                // keep it rare, it is expensive
+            } else {
+                {
+                    let mut ctx = ctxrc.borrow_mut();
+                    let w = *ctx.pick("new_width", &[1024u16, 800, 1920, 640, 1]);
+                    let h = *ctx.pick("new_height", &[768u16, 600, 1080, 480, 1]);
+                    drop(ctx);
+                    let mut srv = s.world.server.borrow_mut();
+                    for c in srv.p.caps.iter_mut() {
+                        if c.0 == 0x02 && c.1.len() >= 12 {
+                            c.1[8..10].copy_from_slice(&w.to_le_bytes());
+                            c.1[10..12].copy_from_slice(&h.to_le_bytes());
+                        }
+                    }
+                    let sid = srv.current_share_id.wrapping_add(0x10001);
+                    srv.phase = crate::refsrv::server::Phase::Activation;
+                    srv.send_deactivate_all();
+                    srv.send_demand_active(sid);
+                    srv.flush();
+                }
+                match s.activate(40) {
+                    Err(o) => return o,
+                    Ok(Err(k)) => return viol("c11/session-not-established", "reactivation", format!("re-activation in the middle of the session failed: {}", k)),
+                    Ok(Ok(())) => {}
+                }
+                ctxrc.borrow_mut().probe("reactivation_between_submissions");
+                // the history compared below starts after the client's finalization PDUs
+                reactivation_marks.push(s.world.server.borrow().history.len());
+            }
+        } else if traffic != 0 {
             {
                 let mut ctx = ctxrc.borrow_mut();
                 let mut srv = s.world.server.borrow_mut();
@@ -114,6 +148,7 @@ pub fn run(env: &mut Env) -> Outcome {
                 }
                 seen.push(events[0].clone());
             }
+            ClientMsg::Share { pdu: SharePdu::ConfirmActive(_), .. } | ClientMsg::Share { pdu: SharePdu::Data { pdu: DataPdu::Synchronize { .. }, .. }, .. } | ClientMsg::Share { pdu: SharePdu::Data { pdu: DataPdu::Control { .. }, .. }, .. } | ClientMsg::Share { pdu: SharePdu::Data { pdu: DataPdu::FontList { .. }, .. }, .. } if !reactivation_marks.is_empty() => {}
             other => return viol("c11/unexpected-client-message", &other.name(), format!("client sent {} while only input was submitted", other.name())),
         }
     }
@@ -145,8 +180,9 @@ pub fn run(env: &mut Env) -> Outcome {
                 if (flags & 0x8000 != 0) == *down {
                     return viol("c11/value", "key-release-flag", format!("submission #{}: down={} arrived with flags {:#06x}", i, down, flags));
                 }
-                if flags & 0x3eff != 0 {
-                    return viol("c11/value", "key-stray-flags", format!("submission #{}: flags {:#06x}", i, flags));
+                if flags & 0x7fff != 0 {
+                    // the API carries a scancode and a press state, nothing else: no extended / was-down / other bits
+                    return viol("c11/value", "key-stray-flags", format!("submission #{}: flags {:#06x} for down={}", i, flags, down));
                 }
             }
             (s2, e2) => return viol("c11/order-or-kind", "kind-mismatch", format!("submission #{} {:?} arrived as {:?}", i, s2, e2)),
